@@ -546,6 +546,27 @@ func (x *Exec) runRegion(fr *Frame, start *ssa.BasicBlock, st *State, region map
 			continue
 		}
 		send := func(to *ssa.BasicBlock, s *State) {
+			// `leaves` clauses: an edge out of a loop under contract (its normal exit or a break)
+			if fr.root {
+				for _, l := range loops {
+					if l.spec == nil || len(l.spec.Leaves) == 0 || !(l.blocks[b] || b == l.head) || l.blocks[to] || to == l.head {
+						continue
+					}
+					for _, c := range l.spec.Leaves {
+						if !x.clauseActive(c) {
+							continue
+						}
+						x.curLoop = l
+						v, err := x.evalBool(fr, s, c.E)
+						x.curLoop = nil
+						if err != nil {
+							x.bindingFailure(fmt.Sprintf("loop%d leaves %q: %v", l.ordinal, c.Name(), err))
+							continue
+						}
+						x.obligeIn(s, fmt.Sprintf("loop%d.leaves", l.ordinal), c.Name(), v, "")
+					}
+				}
+			}
 			if back[edgeKey{b, to}] {
 				if loopHead != nil && to == loopHead.head {
 					backStates = append(backStates, s)
